@@ -18,6 +18,9 @@ REPO = os.environ.get('VERIF_REPO', '/repo')
 VERIF = os.path.dirname(os.path.dirname(os.path.abspath(__file__)))
 
 
+SKIP_RX = re.compile(os.environ['VERIF_SKIP_LABELS']) if os.environ.get('VERIF_SKIP_LABELS') else None
+
+
 class GenError(Exception):
     pass
 
@@ -698,6 +701,7 @@ class FnContract:
         self.src = None
         self.attrs = []
         self.modes = None
+        self.groups = []
 
 
 def parse_kv(rest):
@@ -781,6 +785,13 @@ def parse_contracts(paths):
                     cc.params, cc.ret = m.group(2), m.group(3)
                     cur.closures[int(m.group(1))] = cc
                     target = cc
+                elif d == 'group':
+                    m = re.fullmatch(r'(\w+)\s+labels\(([^)]*)\)(?:\s+mode=(\w+))?', rest)
+                    if not m:
+                        raise GenError('%s: bad @group line' % where)
+                    cur.groups.append({'name': m.group(1), 'labels': m.group(2).split(), 'atoms': [],
+                                       'mode': m.group(3) or 'both'})
+                    textmode = 'atoms'
                 elif d == 'fnlevel':
                     target = cur
                 elif d == 'attr':
@@ -794,6 +805,9 @@ def parse_contracts(paths):
                 continue
             if textmode == 'clause':
                 clause.text += line + '\n'
+            elif textmode == 'atoms':
+                if s:
+                    cur.groups[-1]['atoms'].append(s)
             elif textmode == 'entry':
                 cur.entry += line + '\n'
             elif textmode == 'final':
@@ -822,6 +836,8 @@ def clause_block(clauses, kind, fq, mode, mapping, indent='    '):
             continue
         if c.mode not in ('both', mode):
             continue
+        if SKIP_RX and c.label and SKIP_RX.search('%s::%s' % (fq, c.label)):
+            continue      # development aid only (VERIF_SKIP_LABELS); never set by the checks
         txt = rename_params(c.text.rstrip(), mapping).rstrip().rstrip(',')
         if not txt.strip():
             raise GenError('%s: empty clause %s' % (c.where, c.label))
@@ -875,11 +891,88 @@ def find_loops_and_closures(toks, lo, hi):
                 if arrow is not None:
                     while toks[b].text != '{':
                         b = next_code(toks, b)
-                closures.append((k, j, arrow, b if toks[b].text == '{' else None))
+                # only closures with an explicit return type and a block body take a contract (rule R8);
+                # ordinals count those only
+                if arrow is not None and toks[b].text == '{':
+                    closures.append((k, j, arrow, b))
                 k = j + 1
                 continue
         k += 1
     return loops, closures
+
+
+def fn_edits(src, toks, f, c, mode, mapping, variant):
+    """edits (absolute positions in src) that weave contract c into function f.
+    variant: {'suffix': str|None, 'labels': set|None (ensures labels kept), 'extra_requires': [str],
+              'external_body': bool, 'marker': str}"""
+    edits = []
+    clauses = c.clauses
+    if variant['labels'] is not None:
+        clauses = [x for x in clauses if x.kind != 'ensures' or x.label in variant['labels']]
+    req = clause_block(clauses, 'requires', f.qname, mode, mapping)
+    ens = clause_block(clauses, 'ensures', f.qname, mode, mapping)
+    extra = ''.join('    %s,\n' % rename_params(x, mapping) for x in variant['extra_requires'])
+    spec = ''
+    if req or extra:
+        spec += '\n    requires\n' + extra + req
+    if ens:
+        spec += '\n    ensures\n' + ens
+    pre = '/*@F %s*/ ' % variant['marker']
+    attrs = ''.join('#[%s]\n' % a for a in c.attrs)
+    if variant['external_body']:
+        attrs += '#[verifier::external_body] /*@SPLIT-ORIGINAL: every ensures clause is proved on the copies below*/\n'
+    p = prev_code(toks, f.kw)
+    item_start = toks[p].start if p >= 0 and toks[p].text == 'pub' else toks[f.kw].start
+    if attrs:
+        edits.append((item_start, item_start, attrs))
+    edits.append((toks[f.kw].start, toks[f.kw].start, pre))
+    if variant['suffix']:
+        nm = next_code(toks, f.kw)
+        edits.append((toks[nm].end, toks[nm].end, variant['suffix']))
+    if f.arrow is not None:
+        edits.append((toks[f.arrow].end, toks[f.body_open].start,
+                      ' (%s: %s)%s\n' % (c.ret, f.ret_text, spec)))
+    else:
+        edits.append((toks[f.rparen].end, toks[f.body_open].start, '%s\n' % spec))
+    entry = rename_params(c.entry, mapping)
+    if entry.strip():
+        edits.append((toks[f.body_open].end, toks[f.body_open].end, '\n' + entry))
+    loops, closures = find_loops_and_closures(toks, f.body_open + 1, f.body_close)
+    for ordinal, lc in c.loops.items():
+        if ordinal >= len(loops):
+            raise GenError('%s: contract names loop#%d but the body has %d loops (lost anchor)'
+                           % (f.qname, ordinal, len(loops)))
+        kind, kw, in_i, bopen, bclose = loops[ordinal]
+        lab = '%s::loop#%d' % (f.qname, ordinal)
+        inv = clause_block(lc.clauses, 'invariant', lab, mode, mapping, indent='        ')
+        dec = [rename_params(x.text.strip().rstrip(','), mapping) for x in lc.clauses if x.kind == 'decreases']
+        txt = ''
+        if inv:
+            txt += '\n        invariant\n' + inv
+        if dec:
+            txt += '\n        decreases ' + ', '.join(dec) + ','
+        if kind == 'for' and lc.iter:
+            edits.append((toks[in_i].end, toks[in_i].end, ' %s:' % lc.iter))
+        edits.append((toks[bopen].start, toks[bopen].start, txt + '\n    '))
+        if lc.entry.strip():
+            edits.append((toks[bopen].end, toks[bopen].end, '\n' + rename_params(lc.entry, mapping)))
+        if lc.exit.strip():
+            edits.append((toks[bclose].start, toks[bclose].start, rename_params(lc.exit, mapping) + '\n'))
+    for ordinal, cc in c.closures.items():
+        if ordinal >= len(closures):
+            raise GenError('%s: contract names closure#%d but the body has %d closures (lost anchor)'
+                           % (f.qname, ordinal, len(closures)))
+        b1, b2, arrow, bopen = closures[ordinal]
+        lab = '%s::closure#%d' % (f.qname, ordinal)
+        creq = clause_block(cc.clauses, 'requires', lab, mode, mapping, indent='            ')
+        cens = clause_block(cc.clauses, 'ensures', lab, mode, mapping, indent='            ')
+        hdr = '|%s| -> (%s)' % (rename_params(cc.params, mapping), cc.ret)
+        if creq:
+            hdr += '\n            requires\n' + creq
+        if cens:
+            hdr += '\n            ensures\n' + cens
+        edits.append((toks[b1].start, toks[bopen].start, hdr + '\n        '))
+    return edits, item_start, len(loops), len(closures)
 
 
 def weave(src, modpath, contracts, mode, report, used):
@@ -895,83 +988,65 @@ def weave(src, modpath, contracts, mode, report, used):
                  'body_sha256': hashlib.sha256(body_text.encode()).hexdigest(),
                  'contracted': c is not None}
         report['functions'].append(finfo)
-        edits.append((toks[f.kw].start, toks[f.kw].start, '/*@F %s*/ ' % f.qname))
         if c is None:
+            edits.append((toks[f.kw].start, toks[f.kw].start, '/*@F %s*/ ' % f.qname))
             continue
-        if c.modes is not None and mode not in c.modes:
-            # function is not verified in this mode: keep the signature contract-free and mark external_body
-            pass
         used.add(f.qname)
         if len(c.params) != len(f.params):
             raise GenError('signature of %s changed: contract has %d params, code has %d'
                            % (f.qname, len(c.params), len(f.params)))
         mapping = {a: b for a, b in zip(c.params, f.params) if a != b}
-        req = clause_block(c.clauses, 'requires', f.qname, mode, mapping)
-        ens = clause_block(c.clauses, 'ensures', f.qname, mode, mapping)
-        spec = ''
-        if req:
-            spec += '\n    requires\n' + req
-        if ens:
-            spec += '\n    ensures\n' + ens
-        attrs = ''.join('#[%s]\n' % a for a in c.attrs)
-        if attrs:
-            # attributes go before `pub`/`fn`
-            p = prev_code(toks, f.kw)
-            start = toks[p].start if p >= 0 and toks[p].text == 'pub' else toks[f.kw].start
-            edits.append((start, start, attrs))
-        if f.arrow is not None:
-            edits.append((toks[f.arrow].end, toks[f.body_open].start,
-                          ' (%s: %s)%s\n' % (c.ret, f.ret_text, spec)))
+        groups = [g for g in c.groups if g['mode'] in ('both', mode)]
+        if not groups:
+            e, _, nl, nc = fn_edits(src, toks, f, c, mode, mapping,
+                                    {'suffix': None, 'labels': None, 'extra_requires': [],
+                                     'external_body': False, 'marker': f.qname})
+            edits.extend(e)
         else:
-            edits.append((toks[f.rparen].end, toks[f.body_open].start, '%s\n' % spec))
-        entry = rename_params(c.entry, mapping)
-        if entry.strip():
-            edits.append((toks[f.body_open].end, toks[f.body_open].end, '\n' + entry))
-        if c.final.strip():
-            # before the final expression is not generally locatable; `final` text goes right
-            # before the closing brace only when the body ends with `;`-less tail expression we
-            # cannot split, so it is restricted to functions whose last token before } is `)`
-            raise GenError('@final is not supported')
-        loops, closures = find_loops_and_closures(toks, f.body_open + 1, f.body_close)
-        finfo['loops'] = len(loops)
-        finfo['closures'] = len(closures)
-        for ordinal, lc in c.loops.items():
-            if ordinal >= len(loops):
-                raise GenError('%s: contract names loop#%d but the body has %d loops (lost anchor)'
-                               % (f.qname, ordinal, len(loops)))
-            kind, kw, in_i, bopen, bclose = loops[ordinal]
-            lab = '%s::loop#%d' % (f.qname, ordinal)
-            inv = clause_block(lc.clauses, 'invariant', lab, mode, mapping, indent='        ')
-            dec = [rename_params(x.text.strip().rstrip(','), mapping) for x in lc.clauses if x.kind == 'decreases']
-            txt = ''
-            if inv:
-                txt += '\n        invariant\n' + inv
-            if dec:
-                txt += '\n        decreases ' + ', '.join(dec) + ','
-            if kind == 'for' and lc.iter:
-                edits.append((toks[in_i].end, toks[in_i].end, ' %s:' % lc.iter))
-            edits.append((toks[bopen].start, toks[bopen].start, txt + '\n    '))
-            if lc.entry.strip():
-                edits.append((toks[bopen].end, toks[bopen].end, '\n' + rename_params(lc.entry, mapping)))
-            if lc.exit.strip():
-                edits.append((toks[bclose].start, toks[bclose].start, rename_params(lc.exit, mapping) + '\n'))
-        for ordinal, cc in c.closures.items():
-            if ordinal >= len(closures):
-                raise GenError('%s: contract names closure#%d but the body has %d closures (lost anchor)'
-                               % (f.qname, ordinal, len(closures)))
-            b1, b2, arrow, bopen = closures[ordinal]
-            if bopen is None:
-                raise GenError('%s: closure#%d has no block body' % (f.qname, ordinal))
-            lab = '%s::closure#%d' % (f.qname, ordinal)
-            req = clause_block(cc.clauses, 'requires', lab, mode, mapping, indent='            ')
-            ens = clause_block(cc.clauses, 'ensures', lab, mode, mapping, indent='            ')
-            hdr = '|%s| -> (%s)' % (rename_params(cc.params, mapping), cc.ret)
-            if req:
-                hdr += '\n            requires\n' + req
-            if ens:
-                hdr += '\n            ensures\n' + ens
-            edits.append((toks[b1].start, toks[bopen].start, hdr + '\n        '))
-    # derive stand-ins for repository types
+            # split verification: the original keeps the whole contract but is not verified itself;
+            # each copy re-verifies the same body against one group of ensures clauses (x one sign
+            # assignment of the group's atoms); together the copies cover every clause and every case
+            e, item_start, nl, nc = fn_edits(src, toks, f, c, mode, mapping,
+                                             {'suffix': None, 'labels': None, 'extra_requires': [],
+                                              'external_body': True, 'marker': f.qname})
+            edits.extend(e)
+            ens_labels = [x.label for x in c.clauses if x.kind == 'ensures' and x.mode in ('both', mode)]
+            covered = set()
+            for g in groups:
+                covered |= set(g['labels'])
+            rest = [l for l in ens_labels if l not in covered]
+            allgroups = list(groups)
+            if rest:
+                allgroups.append({'name': 'rest', 'labels': rest, 'atoms': [], 'mode': 'both'})
+            unknown = covered - set(ens_labels)
+            if unknown:
+                raise GenError('%s: @group names unknown clause(s) %s' % (f.qname, sorted(unknown)))
+            end = toks[f.body_close].end
+            fn_src_start = item_start
+            copies = []
+            splitinfo = []
+            for g in allgroups:
+                k = len(g['atoms'])
+                for bits in range(1 << k):
+                    extra = []
+                    for i, a in enumerate(g['atoms']):
+                        extra.append(('(%s)' % a) if (bits >> i) & 1 else ('!(%s)' % a))
+                    suffix = '__%s__%d' % (g['name'], bits)
+                    marker = '%s#%s#%d' % (f.qname, g['name'], bits)
+                    ce, cstart, _, _ = fn_edits(src, toks, f, c, mode, mapping,
+                                                {'suffix': suffix, 'labels': set(g['labels']),
+                                                 'extra_requires': extra, 'external_body': False,
+                                                 'marker': marker})
+                    rel = [(a - cstart, b - cstart, t) for a, b, t in ce]
+                    txt = apply_edits(src[cstart:end], rel)
+                    if txt.startswith('pub '):
+                        txt = txt[4:]
+                    copies.append(txt)
+                    splitinfo.append({'copy': marker, 'labels': g['labels'], 'case': extra})
+            edits.append((end, end, '\n' + '\n'.join(copies) + '\n'))
+            finfo['split'] = splitinfo
+        finfo['loops'] = nl
+        finfo['closures'] = nc
     tnames = []
     for kind, name, k, j, cl in types:
         tnames.append(name)
